@@ -1,5 +1,6 @@
 struct S { int m; unsigned char uc; short sh; unsigned short us; long lg; unsigned long ul; double d; float f; struct S *next; int *pi; int arr[4]; char c; unsigned bf : 3; int sbf : 5; };
 enum E { EM = -1, E0, E1, E2 };
+struct P { char c; int i; double d; short s; char t[3]; };
 int fi(int x); unsigned fu(unsigned x, int y); long fl(long x, char y, double z); double fd(double x); float ff(float x);
 char fc(void); short fsh(short x); unsigned char fuc(int x); unsigned long long full(int x); int *fpi(int *p, int n);
 struct S fst(int x); struct S *fps(int x); void fv(int x); long double fld(void); _Bool fb(int x); enum E fe(int x);
